@@ -20,7 +20,7 @@ EXPLANATION = (
     "_symbolic_mapping handles every fusable class with a non-identity mapping in a non-identity branch, and "
     "FusedBlockwise._task derives every inner block id through expr._input_block_id; R02.4 (REF) the decline guards of "
     "Blockwise._is_blockwise_fusable (concatenate, Delayed operand, contracted multi-block dimension), of the conflict "
-    "detector and of all 163 declining exits of the rewrite hooks (_accept_*, _simplify_*, _pushdown*, _lower, pushdown "
+    "detector and of all 167 declining exits of the rewrite hooks (_accept_*, _simplify_*, _pushdown*, _lower, pushdown "
     "gates) are structurally unchanged; R02.5 FusedBlockwise.dependencies = inner dependencies minus fused names; "
     "R02.8 sibling agreement among the five rewrites that rebuild an Elemwise around transformed inputs: the optional array operands where/out "
     "are transformed with the inputs; R02.9 every operand loop of a Blockwise-family slice pushdown consults the operand's own extent (broadcast "
@@ -832,7 +832,7 @@ RULES = [r02_1, r02_2, r02_3, r02_4, r02_5, r02_6, r02_7, r02_8, r02_9, r02_10, 
 LEVEL_TEXT = (
     "Static decision of sentence 3 of C02 (fusion preserves the output-block -> input-block mapping) as sibling agreement "
     "between _task and _input_block_id over all fusable classes, exhaustiveness of the symbolic conflict detector over the "
-    "class hierarchy, and the derivation of inner block ids; plus a REF inventory (163 structural fingerprints) of every "
+    "class hierarchy, and the derivation of inner block ids; plus a REF inventory (167 structural fingerprints) of every "
     "condition under which a rewrite hook, the fusability test or the conflict detector declines, so that a weakened "
     "decline is reported at its hook; plus structural necessary conditions of sentence 2 for the pushdown rewrites: sibling agreement on where/out at the "
     "Elemwise rebuild sites, per-operand extent and grid checks in multi-operand pushdowns, recomputed layout literals, index-space typing "
